@@ -11,6 +11,7 @@ import Mathlib.Algebra.BigOperators.Ring.Finset
 import Mathlib.Algebra.Order.AbsoluteValue.Basic
 import Mathlib.Tactic.Ring
 import Mathlib.Tactic.Linarith
+import Mathlib.Tactic.FieldSimp
 
 namespace AITB.MDP
 
@@ -435,15 +436,59 @@ theorem vi_tol0_eq_optH (m : MDP) (rep : Rep) (hrep : RepOK m rep) (hA : 0 < m.A
       intro a _
       exact qBackup_congr m (hz k) s a
 
-/-- warm start: a supplied value function whose `values` AND `actions` have S entries is iterated from -/
+theorem acceptWarm_values (S : Nat) (w : VF) (hv : w.values.size = S) : (acceptWarm S w).values = w.values := by
+  unfold acceptWarm
+  simp only [hv, bne_self_eq_false, Bool.false_eq_true, if_false]
+  split <;> rfl
+
+theorem acceptWarm_actions_size (S : Nat) (w : VF) (hv : w.values.size = S)
+    (ha : AITB.Gen.C01.viResizesActions = true ∨ w.actions.size = S) : (acceptWarm S w).actions.size = S := by
+  unfold acceptWarm
+  simp only [hv, bne_self_eq_false, Bool.false_eq_true, if_false]
+  split
+  · simp [mkNats_size]
+  · rename_i hr
+    rcases ha with h | h
+    · exact absurd h hr
+    · exact h
+
+/-- **vi_tol0_warm.**  Warm start: a supplied value function whose `values` has S entries is iterated from — h backups of it —
+    provided operator() sizes its `actions` vector to S (`Gen.C01.viResizesActions`, true once fixes/C01-2 is in the source:
+    then this is the full-strength statement for every `actions` vector) or the caller supplied S actions (the `_partial`
+    form that holds for the unfixed source). -/
 theorem vi_tol0_warm (m : MDP) (rep : Rep) (hrep : RepOK m rep) (hA : 0 < m.A) (h : Nat) (tol : Rat)
-    (htol : useTolerance tol = false) (w : VF) (hv : w.values.size = m.S) (ha : w.actions.size = m.S) :
+    (htol : useTolerance tol = false) (w : VF) (hv : w.values.size = m.S)
+    (ha : AITB.Gen.C01.viResizesActions = true ∨ w.actions.size = m.S) :
     ∀ s, s < m.S → (valueIteration m rep h tol (some w)).vf.values.get s = optFrom m w.values.get h s := by
   intro s hs
-  have hsh : VIShape m ⟨w, makeQ m.S m.A, tol * 2, 0⟩ := ⟨hv, ha⟩
+  have hsh : VIShape m ⟨acceptWarm m.S w, makeQ m.S m.A, tol * 2, 0⟩ :=
+    ⟨by simp only [acceptWarm_values m.S w hv]; exact hv, acceptWarm_actions_size m.S w hv ha⟩
   obtain ⟨_, _, _, hval⟩ := viLoop_noTol m rep hrep hA tol h _ hsh
-  simp only [valueIteration, htol, hv, bne_self_eq_false, Bool.false_eq_true, if_false]
-  exact hval s hs
+  simp only [valueIteration, htol]
+  rw [hval s hs]
+  simp only [acceptWarm_values m.S w hv]
+
+/-- **counterexample on the unfixed source** (vacuous once `viResizesActions` is true): a documented start
+    `ValueFunction{values}` with an empty `actions` vector is *not* iterated — one pass only multiplies it by γ. -/
+theorem vi_warm_empty_actions_counterexample (m : MDP) (rep : Rep) (tol : Rat) (htol : useTolerance tol = false)
+    (hfix : AITB.Gen.C01.viResizesActions = false) (w : VF) (hv : w.values.size = m.S) (ha : w.actions.size = 0) :
+    ∀ s, s < m.S → (valueIteration m rep 1 tol (some w)).vf.values.get s = w.values.get s * m.γ := by
+  intro s hs
+  have e : acceptWarm m.S w = w := by
+    unfold acceptWarm
+    simp only [hv, bne_self_eq_false, Bool.false_eq_true, if_false, hfix]
+  simp only [valueIteration, htol, e, viLoop, Bool.false_and, Bool.false_eq_true, if_false]
+  simp only [viStep, bellmanInplace, mkVec_size, ha]
+  rw [mkVec_get _ (by omega), if_neg (by omega), mkVec_get _ (by omega)]
+
+theorem optIterFrom_eq (m : MDP) (v0 : Vec) (h : Nat) : ∀ s, s < m.S → (optIterFrom m v0 h).get s = optFrom m v0.get h s := by
+  induction h with
+  | zero => intro s _; rfl
+  | succ h ih =>
+    intro s hs
+    simp only [optIterFrom, bellmanVec, optFrom]
+    rw [mkVec_get _ hs]
+    exact bellman_congr m ih s
 
 /-! ## `optH_is_optimal`: the DP values dominate every history-dependent plan and are attained by the greedy plan -/
 
@@ -1218,6 +1263,781 @@ theorem pe_stop_bound (m : MDP) (rep : Rep) (hrep : RepOK m rep) (hγ0 : 0 ≤ m
       intro u hu
       exact maxAbsDiff_ge m.S _ _ u hu
 
+/-! ## closing the PolicyIteration chain: tie arithmetic, discreteness of greedy rows, last evaluation sweep -/
+
+theorem tolSmall_pos : 0 < AITB.Gen.equalToleranceSmall := by norm_num [AITB.Gen.equalToleranceSmall]
+theorem tolGeneral_nonneg : 0 ≤ AITB.Gen.equalToleranceGeneral := by norm_num [AITB.Gen.equalToleranceGeneral]
+
+
+theorem checkEqualSmall_bound (a b : Rat) (h : checkEqualSmall a b = true) : |a - b| ≤ AITB.Gen.equalToleranceSmall := by
+  simpa [checkEqualSmall, absR_eq] using h
+
+/-- **the `checkEqualGeneral` arithmetic step**: accepted pairs differ by at most `tieSlack B` when one of them is bounded by B -/
+theorem checkEqualGeneral_bound (a b B : Rat) (hb : |b| ≤ B) (h : checkEqualGeneral a b = true) : |a - b| ≤ tieSlack B := by
+  unfold checkEqualGeneral at h
+  simp only [Bool.or_eq_true, decide_eq_true_eq] at h
+  have hB : 0 ≤ B := le_trans (abs_nonneg b) hb
+  have hg := tolGeneral_nonneg
+  have hs := tolSmall_pos
+  unfold tieSlack
+  rcases h with h | h
+  · have := checkEqualSmall_bound a b h
+    nlinarith
+  · rw [absR_eq, absR_eq, absR_eq] at h
+    have hm : minR |a| |b| ≤ |b| := by
+      unfold minR; split
+      · exact le_refl _
+      · rename_i hlt; exact not_lt.mp hlt
+    have h1 : minR |a| |b| * AITB.Gen.equalToleranceGeneral ≤ B * AITB.Gen.equalToleranceGeneral :=
+      mul_le_mul_of_nonneg_right (le_trans hm hb) hg
+    nlinarith
+
+/-- the scan's running maximum is an entry, the count is between 1 and n+1, and no entry exceeds the running maximum by more than the tie slack -/
+theorem greedyScan_spec (q : Nat → Rat) (B : Rat) : ∀ n, (∀ i, i ≤ n → |q i| ≤ B) →
+    (∃ i, i ≤ n ∧ (greedyScan q n).1 = q i) ∧ 1 ≤ (greedyScan q n).2 ∧ (greedyScan q n).2 ≤ n + 1 ∧
+    ∀ i, i ≤ n → q i ≤ (greedyScan q n).1 + tieSlack B := by
+  intro n
+  have hsl : ∀ B', 0 ≤ B' → 0 ≤ tieSlack B' := fun B' hB' => by
+    unfold tieSlack; have := tolSmall_pos; have := tolGeneral_nonneg; nlinarith
+  induction n with
+  | zero =>
+    intro hb
+    have hB : 0 ≤ B := le_trans (abs_nonneg _) (hb 0 (le_refl _))
+    refine ⟨⟨0, le_refl _, rfl⟩, by simp [greedyScan], by simp [greedyScan], ?_⟩
+    intro i hi
+    have : i = 0 := by omega
+    subst this
+    simp only [greedyScan]; linarith [hsl B hB]
+  | succ n ih =>
+    intro hb
+    obtain ⟨⟨j, hj, hjm⟩, c1, c2, hle⟩ := ih (fun i hi => hb i (by omega))
+    have hB : 0 ≤ B := le_trans (abs_nonneg _) (hb 0 (by omega))
+    by_cases h1 : checkEqualGeneral (q (n+1)) (greedyScan q n).1 = true
+    · have e : greedyScan q (n+1) = ((greedyScan q n).1, (greedyScan q n).2 + 1) := by
+        simp only [greedyScan, h1, if_true]
+      rw [e]
+      refine ⟨⟨j, by omega, hjm⟩, by simp, by simp; omega, ?_⟩
+      intro i hi
+      rcases Nat.lt_or_ge i (n+1) with h | h
+      · exact hle i (by omega)
+      · have : i = n+1 := by omega
+        subst this
+        have hmb : |(greedyScan q n).1| ≤ B := by rw [hjm]; exact hb j (by omega)
+        have := checkEqualGeneral_bound _ _ B hmb h1
+        rw [abs_le] at this
+        simp only; linarith [this.2]
+    · by_cases h2 : (greedyScan q n).1 < q (n+1)
+      · have e : greedyScan q (n+1) = (q (n+1), 1) := by
+          simp only [greedyScan, h1, h2, if_true, Bool.false_eq_true, if_false]
+        rw [e]
+        refine ⟨⟨n+1, le_refl _, rfl⟩, by simp, by simp, ?_⟩
+        intro i hi
+        rcases Nat.lt_or_ge i (n+1) with h | h
+        · have := hle i (by omega); simp only; linarith
+        · have : i = n+1 := by omega
+          subst this; simp only; linarith [hsl B hB]
+      · have e : greedyScan q (n+1) = greedyScan q n := by
+          simp only [greedyScan, h1, h2, Bool.false_eq_true, if_false]
+        rw [e]
+        refine ⟨⟨j, by omega, hjm⟩, c1, by omega, ?_⟩
+        intro i hi
+        rcases Nat.lt_or_ge i (n+1) with h | h
+        · exact hle i (by omega)
+        · have : i = n+1 := by omega
+          subst this; linarith [not_lt.mp h2, hsl B hB]
+
+/-- a positively weighted action of a greedy row is within twice the tie slack of the row maximum -/
+theorem greedyRow_near_max (A : Nat) (hA : 0 < A) (q : Nat → Rat) (B : Rat) (hb : ∀ i, i < A → |q i| ≤ B) (a : Nat)
+    (h : greedyRow A q a ≠ 0) : maxTo (A - 1) q - 2 * tieSlack B ≤ q a := by
+  have hb' : ∀ i, i ≤ A - 1 → |q i| ≤ B := fun i hi => hb i (by omega)
+  obtain ⟨⟨j, hj, hjm⟩, _, _, hle⟩ := greedyScan_spec q B (A - 1) hb'
+  have hsup := greedyRow_support A q a h
+  have hmb : |(greedyScan q (A - 1)).1| ≤ B := by rw [hjm]; exact hb' j hj
+  have h1 := checkEqualGeneral_bound _ _ B hmb hsup
+  rw [abs_le] at h1
+  obtain ⟨i, hi, hmax⟩ := maxTo_attained (A - 1) q
+  have h2 := hle i hi
+  rw [hmax]; linarith [h1.1]
+
+theorem greedyScan_count (q : Nat → Rat) : ∀ n, 1 ≤ (greedyScan q n).2 ∧ (greedyScan q n).2 ≤ n + 1 := by
+  intro n
+  induction n with
+  | zero => simp [greedyScan]
+  | succ n ih =>
+    simp only [greedyScan]
+    split
+    · simp; omega
+    · split
+      · simp
+      · omega
+
+/-- entries of a greedy row are 0 or 1/c for one count c ∈ [1, A] -/
+theorem greedyRow_form (A : Nat) (hA : 0 < A) (q : Nat → Rat) :
+    ∃ c : Nat, 1 ≤ c ∧ c ≤ A ∧ ∀ a, greedyRow A q a = 0 ∨ greedyRow A q a = 1 / (c : Rat) := by
+  obtain ⟨c1, c2⟩ := greedyScan_count q (A - 1)
+  refine ⟨(greedyScan q (A - 1)).2, c1, by omega, ?_⟩
+  intro a
+  unfold greedyRow
+  simp only
+  split
+  · exact Or.inr rfl
+  · exact Or.inl rfl
+
+/-! ### discreteness: two greedy rows that agree entrywise within equalToleranceSmall are equal -/
+
+theorem recip_eq_of_close (A c d : Nat) (t : Rat) (hc1 : 1 ≤ c) (hcA : c ≤ A) (hd1 : 1 ≤ d) (hdA : d ≤ A)
+    (hA2 : (A : Rat) * A * t < 1) (h : |1 / (c : Rat) - 1 / (d : Rat)| ≤ t) : c = d := by
+  by_contra hne
+  have hcq : (0 : Rat) < c := by exact_mod_cast hc1
+  have hdq : (0 : Rat) < d := by exact_mod_cast hd1
+  have hid : 1 / (c : Rat) - 1 / (d : Rat) = ((d : Rat) - c) / (c * d) := by field_simp
+  have hx : |(d : Rat) - c| = |1 / (c : Rat) - 1 / (d : Rat)| * ((c : Rat) * d) := by
+    have e : (d : Rat) - c = (1 / (c : Rat) - 1 / (d : Rat)) * ((c : Rat) * d) := by rw [hid]; field_simp
+    rw [e, abs_mul, abs_of_pos (mul_pos hcq hdq)]
+  have t0 : 0 ≤ t := le_trans (abs_nonneg _) h
+  have hcd : (c : Rat) * d ≤ (A : Rat) * A :=
+    mul_le_mul (by exact_mod_cast hcA) (by exact_mod_cast hdA) (le_of_lt hdq) (Nat.cast_nonneg A)
+  have h1 : |(d : Rat) - c| ≤ t * ((A : Rat) * A) := by
+    rw [hx]
+    calc _ ≤ t * ((c : Rat) * d) := mul_le_mul_of_nonneg_right h (le_of_lt (mul_pos hcq hdq))
+      _ ≤ t * ((A : Rat) * A) := mul_le_mul_of_nonneg_left hcd t0
+  have hge : (1 : Rat) ≤ |(d : Rat) - c| := by
+    rcases Nat.lt_or_gt_of_ne hne with h' | h'
+    · have : (c : Rat) + 1 ≤ d := by exact_mod_cast h'
+      exact le_trans (by linarith) (le_abs_self _)
+    · have : (d : Rat) + 1 ≤ c := by exact_mod_cast h'
+      rw [abs_sub_comm]
+      exact le_trans (by linarith) (le_abs_self _)
+  have : t * ((A : Rat) * A) = (A : Rat) * A * t := by ring
+  linarith
+
+theorem rows_equal_of_close (A : Nat) (t : Rat) (hA2 : (A : Rat) * A * t < 1) (x y : Nat → Rat) (c d : Nat)
+    (hc1 : 1 ≤ c) (hcA : c ≤ A) (hd1 : 1 ≤ d) (hdA : d ≤ A)
+    (hx : ∀ a, x a = 0 ∨ x a = 1 / (c : Rat)) (hy : ∀ a, y a = 0 ∨ y a = 1 / (d : Rat))
+    (hcl : ∀ a, a < A → |x a - y a| ≤ t) : ∀ a, a < A → x a = y a := by
+  have small : ∀ e : Nat, 1 ≤ e → e ≤ A → t < 1 / (e : Rat) := by
+    intro e he1 heA
+    have heq : (0 : Rat) < e := by exact_mod_cast he1
+    rw [lt_div_iff₀ heq]
+    by_cases ht : 0 ≤ t
+    · have h1 : (e : Rat) ≤ A := by exact_mod_cast heA
+      have h2 : (1 : Rat) ≤ A := le_trans (by exact_mod_cast he1) h1
+      have h3 : t * e ≤ t * A := mul_le_mul_of_nonneg_left h1 ht
+      have h5 : 0 ≤ t * A := mul_nonneg ht (by linarith)
+      have h4 : t * A ≤ t * A * A := by nlinarith [mul_nonneg h5 (sub_nonneg.mpr h2)]
+      have h6 : t * A * A = (A : Rat) * A * t := by ring
+      linarith
+    · nlinarith
+  intro a ha
+  have hcla := hcl a ha
+  rcases hx a with h0 | h1 <;> rcases hy a with g0 | g1
+  · rw [h0, g0]
+  · exfalso
+    rw [h0, g1, zero_sub, abs_neg] at hcla
+    have hdq : (0 : Rat) < d := by exact_mod_cast hd1
+    rw [abs_of_pos (one_div_pos.mpr hdq)] at hcla
+    linarith [small d hd1 hdA]
+  · exfalso
+    rw [h1, g0, sub_zero] at hcla
+    have hcq : (0 : Rat) < c := by exact_mod_cast hc1
+    rw [abs_of_pos (one_div_pos.mpr hcq)] at hcla
+    linarith [small c hc1 hcA]
+  · rw [h1, g1] at hcla ⊢
+    rw [recip_eq_of_close A c d t hc1 hcA hd1 hdA hA2 hcla]
+
+theorem matDiffers_false {S A : Nat} {x y : Mat} (h : matDiffers S A x y = false) :
+    ∀ s a, s < S → a < A → |x.get s a - y.get s a| ≤ AITB.Gen.equalToleranceSmall := by
+  intro s a hs ha
+  unfold matDiffers at h
+  rw [List.any_eq_false] at h
+  have h1 := h s (List.mem_range.mpr hs)
+  simp only [Bool.not_eq_true] at h1
+  rw [List.any_eq_false] at h1
+  have h2 := h1 a (List.mem_range.mpr ha)
+  simp only [Bool.not_eq_true, checkDifferentSmall, Bool.not_eq_false'] at h2
+  exact checkEqualSmall_bound _ _ h2
+
+/-- stability of the greedy matrix within the library tolerance means the two greedy policies are the same matrix -/
+theorem greedy_stable_eq (S A : Nat) (hA : 0 < A) (hA2 : (A : Rat) * A * AITB.Gen.equalToleranceSmall < 1) (q q' : Mat)
+    (h : matDiffers S A (greedyPolicy S A q) (greedyPolicy S A q') = false) :
+    ∀ s a, s < S → a < A → (greedyPolicy S A q).get s a = (greedyPolicy S A q').get s a := by
+  intro s a hs ha
+  obtain ⟨c, hc1, hcA, hx⟩ := greedyRow_form A hA (q.get s)
+  obtain ⟨d, hd1, hdA, hy⟩ := greedyRow_form A hA (q'.get s)
+  have hcl : ∀ b, b < A → |greedyRow A (q.get s) b - greedyRow A (q'.get s) b| ≤ AITB.Gen.equalToleranceSmall := by
+    intro b hb
+    have := matDiffers_false h s b hs hb
+    unfold greedyPolicy at this
+    rwa [mkMat_get _ hs hb, mkMat_get _ hs hb] at this
+  unfold greedyPolicy
+  rw [mkMat_get _ hs ha, mkMat_get _ hs ha]
+  exact rows_equal_of_close A _ hA2 _ _ c d hc1 hcA hd1 hdA hx hy hcl a ha
+
+/-! ### the last evaluation sweep of any PolicyEvaluation run -/
+
+def PEInv (m : MDP) (p : Mat) (useTol : Bool) (st : PEState) : Prop :=
+  st.timestep = 0 ∨ ∃ prev : Nat → Rat,
+    (∀ s, s < m.S → st.v.get s = bellmanPi m p.get prev s) ∧
+    (∀ s a, s < m.S → a < m.A → st.q.get s a = qBackup m prev s a) ∧
+    (useTol = true → st.variation = maxAbsDiff m.S st.v.get prev)
+
+theorem peLoop_inv (m : MDP) (rep : Rep) (hrep : RepOK m rep) (useTol : Bool) (tol : Rat) (p : Mat) :
+    ∀ (fuel : Nat) (st : PEState), st.v.size = m.S → PEInv m p useTol st →
+      PEInv m p useTol (peLoop m rep (immRewards m rep) useTol tol p fuel st) ∧
+      st.timestep ≤ (peLoop m rep (immRewards m rep) useTol tol p fuel st).timestep ∧
+      ((useTol = false ∨ tol < st.variation) → 0 < fuel →
+          st.timestep < (peLoop m rep (immRewards m rep) useTol tol p fuel st).timestep) ∧
+      (useTol = true → (peLoop m rep (immRewards m rep) useTol tol p fuel st).variation ≤ tol ∨
+          (peLoop m rep (immRewards m rep) useTol tol p fuel st).timestep = st.timestep + fuel) := by
+  intro fuel
+  induction fuel with
+  | zero => intro st _ hinv; exact ⟨hinv, le_refl _, fun _ h => absurd h (lt_irrefl 0), fun _ => Or.inr rfl⟩
+  | succ fuel ih =>
+    intro st hv hinv
+    by_cases hstop : (useTol && !(decide (st.variation > tol))) = true
+    · have e : peLoop m rep (immRewards m rep) useTol tol p (fuel+1) st = st := by
+        conv => lhs; unfold peLoop
+        simp only [hstop, if_true]
+      rw [e]
+      simp only [Bool.and_eq_true, Bool.not_eq_true', decide_eq_false_iff_not, not_lt] at hstop
+      refine ⟨hinv, le_refl _, ?_, fun _ => Or.inl hstop.2⟩
+      intro hc _
+      rcases hc with hc | hc
+      · rw [hc] at hstop; exact absurd hstop.1 (by simp)
+      · exact absurd hc (not_lt.mpr hstop.2)
+    · have e : peLoop m rep (immRewards m rep) useTol tol p (fuel+1) st
+          = peLoop m rep (immRewards m rep) useTol tol p fuel (peStep m rep (immRewards m rep) useTol p st) := by
+        conv => lhs; unfold peLoop
+        simp only [hstop, Bool.false_eq_true, if_false]
+      obtain ⟨hv', hval, hq, hts, hvar⟩ := peStep_spec m rep hrep useTol p st hv
+      have hinv' : PEInv m p useTol (peStep m rep (immRewards m rep) useTol p st) :=
+        Or.inr ⟨st.v.get, hval, hq, fun hu => by rw [hvar, hu]; simp⟩
+      obtain ⟨i1, i2, _, i4⟩ := ih _ hv' hinv'
+      rw [e]
+      refine ⟨i1, by omega, fun _ _ => by omega, fun hu => ?_⟩
+      rcases i4 hu with h | h
+      · exact Or.inl h
+      · exact Or.inr (by rw [h, hts]; omega)
+
+/-- whatever the start vector and the tolerance setting, a PolicyEvaluation call with horizon ≥ 1 ends on a sweep from some
+    vector `prev`: v = B_π prev, q = Q^prev, and (tolerance runs) variation = ‖v − prev‖∞ ≤ tol unless all sweeps were used -/
+theorem policyEvaluation_last (m : MDP) (rep : Rep) (hrep : RepOK m rep) (h : Nat) (hh : 0 < h) (tol : Rat)
+    (htol : useTolerance tol = false ∨ 0 < tol) (vParam : Option Vec) (p : Mat) :
+    ∃ prev : Nat → Rat,
+      (∀ s, s < m.S → (policyEvaluation m rep h tol vParam p).v.get s = bellmanPi m p.get prev s) ∧
+      (∀ s a, s < m.S → a < m.A → (policyEvaluation m rep h tol vParam p).q.get s a = qBackup m prev s a) ∧
+      (useTolerance tol = true →
+        (policyEvaluation m rep h tol vParam p).variation = maxAbsDiff m.S (policyEvaluation m rep h tol vParam p).v.get prev ∧
+        ((policyEvaluation m rep h tol vParam p).variation ≤ tol ∨ (policyEvaluation m rep h tol vParam p).timestep = h)) := by
+  have hstart : ∃ v1 : Vec, v1.size = m.S ∧ policyEvaluation m rep h tol vParam p =
+      ⟨if useTolerance tol then (peLoop m rep (immRewards m rep) (useTolerance tol) tol p h ⟨v1, makeQ m.S m.A, tol * 2, 0⟩).variation else 0,
+       (peLoop m rep (immRewards m rep) (useTolerance tol) tol p h ⟨v1, makeQ m.S m.A, tol * 2, 0⟩).v,
+       (peLoop m rep (immRewards m rep) (useTolerance tol) tol p h ⟨v1, makeQ m.S m.A, tol * 2, 0⟩).q,
+       (peLoop m rep (immRewards m rep) (useTolerance tol) tol p h ⟨v1, makeQ m.S m.A, tol * 2, 0⟩).timestep⟩ := by
+    cases vParam with
+    | none => exact ⟨_, mkVec_size _ _, rfl⟩
+    | some v =>
+      by_cases hv : v.size = m.S
+      · refine ⟨v, hv, ?_⟩
+        simp only [policyEvaluation, hv, bne_self_eq_false, Bool.false_eq_true, if_false]
+      · refine ⟨mkVec m.S (fun _ => 0), mkVec_size _ _, ?_⟩
+        have hb : (v.size != m.S) = true := by simpa using hv
+        simp only [policyEvaluation, hb, if_true]
+  obtain ⟨v1, hv1, he⟩ := hstart
+  obtain ⟨hinv, _, hprog, hstop⟩ := peLoop_inv m rep hrep (useTolerance tol) tol p h ⟨v1, makeQ m.S m.A, tol * 2, 0⟩ hv1 (Or.inl rfl)
+  have hstep := hprog (by
+    rcases htol with h0 | h0
+    · exact Or.inl h0
+    · exact Or.inr (by show tol < tol * 2; linarith)) hh
+  rcases hinv with h0 | ⟨prev, hp1, hp2, hp3⟩
+  · simp only at hstep; omega
+  · refine ⟨prev, ?_, ?_, ?_⟩
+    · intro s hs; rw [he]; exact hp1 s hs
+    · intro s a hs ha; rw [he]; exact hp2 s a hs ha
+    · intro hu
+      rw [he]
+      simp only
+      rw [if_pos hu]
+      refine ⟨hp3 hu, ?_⟩
+      rcases hstop hu with h1 | h1
+      · exact Or.inl h1
+      · exact Or.inr (by rw [h1]; simp)
+
+/-! ### the PolicyIteration chain -/
+
+/-- values PolicyIteration's caller reads off the returned Q-function -/
+def piValues (m : MDP) (q : Mat) (s : Nat) : Rat := maxTo (m.A - 1) (q.get s)
+
+/-- **policyIteration_chain.**  If the modelled loop terminates (`= some st`) then the returned Q-function is the Q-function of
+    the last evaluation sweep, and — provided the greedy matrix of the *returned* Q is a coherent distribution (checkable on the
+    output) — `V = max_a Q` satisfies the Bellman optimality equation within γ(ε + τ), where ε is the last sweep's variation
+    (≤ tol for a tolerance run unless the horizon was exhausted) and τ any bound on how far positively weighted actions are
+    below the row maximum. -/
+theorem policyIteration_chain (m : MDP) (rep : Rep) (hrep : RepOK m rep) (hA : 0 < m.A) (hγ0 : 0 ≤ m.γ) (hT : ValidT m)
+    (h : Nat) (hh : 0 < h) (tol : Rat) (htol : useTolerance tol = false ∨ 0 < tol)
+    (hA2 : (m.A : Rat) * m.A * AITB.Gen.equalToleranceSmall < 1)
+    (fuel : Nat) (st : PIState) (hres : policyIteration m rep h tol fuel = some st)
+    (hvalid : ValidPi m (greedyPolicy m.S m.A st.qfun).get) :
+    ∃ prev : PIState,
+      st.qfun = (policyEvaluation m rep h tol prev.vParam (greedyPolicy m.S m.A prev.qfun)).q ∧
+      ∃ ε : Rat, 0 ≤ ε ∧
+        (useTolerance tol = true →
+          ε = (policyEvaluation m rep h tol prev.vParam (greedyPolicy m.S m.A prev.qfun)).variation ∧
+          (ε ≤ tol ∨ (policyEvaluation m rep h tol prev.vParam (greedyPolicy m.S m.A prev.qfun)).timestep = h)) ∧
+        ∀ τ : Rat,
+          (∀ s a, s < m.S → a < m.A → (greedyPolicy m.S m.A st.qfun).get s a ≠ 0 → piValues m st.qfun s - τ ≤ st.qfun.get s a) →
+          ∀ s, s < m.S → |bellman m (piValues m st.qfun) s - piValues m st.qfun s| ≤ m.γ * (ε + τ) := by
+  have hinv0 : PIInv m ⟨makeQ m.S m.A, greedyPolicy m.S m.A (makeQ m.S m.A), none, 0⟩ := rfl
+  obtain ⟨prev, _, hq, hstab⟩ := piLoop_result m rep h tol fuel _ st hinv0 hres
+  refine ⟨prev, hq, ?_⟩
+  obtain ⟨v', hv1, hv2, hv3⟩ := policyEvaluation_last m rep hrep h hh tol htol prev.vParam (greedyPolicy m.S m.A prev.qfun)
+  have hsame := greedy_stable_eq m.S m.A hA hA2 prev.qfun st.qfun hstab
+  refine ⟨maxAbsDiff m.S (policyEvaluation m rep h tol prev.vParam (greedyPolicy m.S m.A prev.qfun)).v.get v', ?_, ?_, ?_⟩
+  · by_cases hS : 0 < m.S
+    · obtain ⟨s, _, hs⟩ := maxAbsDiff_attained m.S hS (policyEvaluation m rep h tol prev.vParam (greedyPolicy m.S m.A prev.qfun)).v.get v'
+      rw [hs]; exact abs_nonneg _
+    · have : m.S = 0 := by omega
+      unfold maxAbsDiff maxTo; rw [this]; simp [absR_eq]
+  · intro hu
+    obtain ⟨e1, e2⟩ := hv3 hu
+    exact ⟨e1.symm, by rw [← e1]; exact e2⟩
+  · intro τ hτ s hs
+    have hVeq : ∀ u, u < m.S → piValues m st.qfun u = bellman m v' u := by
+      intro u hu
+      unfold piValues bellman
+      apply maxTo_congr
+      intro a ha
+      rw [hq]; exact hv2 u a hu (by omega)
+    have hb := pi_stop_bound m hA hγ0 hT (greedyPolicy m.S m.A st.qfun).get hvalid
+      (policyEvaluation m rep h tol prev.vParam (greedyPolicy m.S m.A prev.qfun)).v.get v'
+      (maxAbsDiff m.S (policyEvaluation m rep h tol prev.vParam (greedyPolicy m.S m.A prev.qfun)).v.get v') τ
+      (by
+        intro u hu
+        rw [hv1 u hu]
+        unfold bellmanPi
+        apply sumTo_congr
+        intro a ha
+        rw [hsame u a hu ha])
+      (fun u hu => maxAbsDiff_ge m.S _ _ u hu)
+      (by
+        intro u a hu ha hne
+        have := hτ u a hu ha hne
+        rw [hVeq u hu, hq, hv2 u a hu ha] at this
+        exact this)
+      s hs
+    rw [bellman_congr m hVeq s, hVeq s hs]
+    exact hb
+
+
+/-! ### planners agree, without assuming that a fixed point exists -/
+
+/-- one-sided LP bound against an *approximate* solution: a δ-feasible point lies above any W with ‖BW − W‖∞ ≤ r up to (δ+r)/(1−γ) -/
+theorem lp_feasible_ge_approx (m : MDP) (rep : Rep) (hrep : RepOK m rep) (hA : 0 < m.A) (hγ0 : 0 ≤ m.γ) (hγ1 : m.γ < 1)
+    (hT : ValidT m) (V W : Nat → Rat) (δ r : Rat) (hV : LpFeasible m rep V δ)
+    (hW : ∀ s, s < m.S → |bellman m W s - W s| ≤ r) :
+    ∀ s, s < m.S → W s - (δ + r) / (1 - m.γ) ≤ V s := by
+  intro s hs
+  obtain ⟨t, ht, hD⟩ := maxTo_attained (m.S - 1) (fun u => W u - V u)
+  have hle : ∀ u, u < m.S → W u - V u ≤ maxTo (m.S - 1) (fun u => W u - V u) :=
+    fun u hu => maxTo_ge (m.S - 1) (fun u => W u - V u) u (by omega)
+  have ht' : t < m.S := by omega
+  obtain ⟨a, ha, hmax⟩ := maxTo_attained (m.A - 1) (qBackup m W t)
+  have ha' : a < m.A := by omega
+  have hWt : W t ≤ qBackup m W t a + r := by
+    have h1 := hW t ht'
+    rw [abs_le] at h1
+    have : bellman m W t = qBackup m W t a := hmax
+    linarith [h1.1]
+  have hfe := hV t a ht' ha'
+  rw [lpSlack_eq m rep hrep V ht' ha'] at hfe
+  have hdiff : qBackup m W t a - qBackup m V t a ≤ m.γ * maxTo (m.S - 1) (fun u => W u - V u) := by
+    unfold qBackup
+    have e : m.R t a + sumTo m.S (fun s1 => m.T t a s1 * (W s1 * m.γ)) - (m.R t a + sumTo m.S (fun s1 => m.T t a s1 * (V s1 * m.γ)))
+        = m.γ * sumTo m.S (fun s1 => m.T t a s1 * (W s1 - V s1)) := by
+      rw [← sumTo_mul_left]
+      have : sumTo m.S (fun s1 => m.T t a s1 * (W s1 * m.γ))
+          = sumTo m.S (fun s1 => m.T t a s1 * (V s1 * m.γ) + m.γ * (m.T t a s1 * (W s1 - V s1))) := by
+        apply sumTo_congr; intro i _; ring
+      rw [this, sumTo_add]; ring
+    rw [e]
+    exact mul_le_mul_of_nonneg_left (weighted_le m hT (fun u => W u - V u) _ hle t a) hγ0
+  have hpos : 0 < 1 - m.γ := by linarith
+  have hDle : maxTo (m.S - 1) (fun u => W u - V u) ≤ (δ + r) / (1 - m.γ) := by
+    rw [le_div_iff₀ hpos]
+    have : maxTo (m.S - 1) (fun u => W u - V u) = W t - V t := hD
+    nlinarith
+  have := hle s hs
+  linarith
+
+/-- **planners_agree.**  Take the three planners' outputs on the same MDP (γ < 1, valid T), no fixed point assumed:
+    * VI run with tolerance tolVI > 0 that stopped by tolerance (not by horizon),
+    * a terminated PolicyIteration run whose last evaluation stopped by tolerance tolPI, coherent greedy matrix, |Q| ≤ B,
+    * any LP answer `Vlp` whose Bellman residual is ≤ rLP (what the checker measures on lp_solve's output).
+    Then, pointwise on the S states,
+      |V_vi − V_pi| ≤ γ(tolVI + tolPI + 2·tieSlack B)/(1−γ),
+      |V_vi − V_lp| ≤ (γ·tolVI + rLP)/(1−γ),   |V_pi − V_lp| ≤ (γ(tolPI + 2·tieSlack B) + rLP)/(1−γ). -/
+theorem planners_agree (m : MDP) (rep : Rep) (hrep : RepOK m rep) (hA : 0 < m.A) (hγ0 : 0 ≤ m.γ) (hγ1 : m.γ < 1) (hT : ValidT m)
+    (hA2 : (m.A : Rat) * m.A * AITB.Gen.equalToleranceSmall < 1)
+    -- value iteration
+    (hVI : Nat) (hhVI : 0 < hVI) (tolVI : Rat) (htVI0 : 0 < tolVI) (htVI : useTolerance tolVI = true)
+    (hVIconv : (valueIteration m rep hVI tolVI none).timestep < hVI)
+    -- policy iteration
+    (hPI : Nat) (hhPI : 0 < hPI) (tolPI : Rat) (htPI0 : 0 < tolPI) (htPI : useTolerance tolPI = true) (fuel : Nat) (st : PIState)
+    (hres : policyIteration m rep hPI tolPI fuel = some st)
+    (hPIconv : ∀ prev : PIState, (policyEvaluation m rep hPI tolPI prev.vParam (greedyPolicy m.S m.A prev.qfun)).timestep < hPI)
+    (hvalid : ValidPi m (greedyPolicy m.S m.A st.qfun).get)
+    (B : Rat) (hB : ∀ s a, s < m.S → a < m.A → |st.qfun.get s a| ≤ B)
+    -- linear programming
+    (Vlp : Nat → Rat) (rLP : Rat) (hLP : ∀ s, s < m.S → |bellman m Vlp s - Vlp s| ≤ rLP) :
+    let Vvi := (valueIteration m rep hVI tolVI none).vf.values.get
+    let Vpi := piValues m st.qfun
+    (∀ s, s < m.S → |Vvi s - Vpi s| ≤ (m.γ * tolVI + m.γ * (tolPI + 2 * tieSlack B)) / (1 - m.γ)) ∧
+    (∀ s, s < m.S → |Vvi s - Vlp s| ≤ (m.γ * tolVI + rLP) / (1 - m.γ)) ∧
+    (∀ s, s < m.S → |Vpi s - Vlp s| ≤ (m.γ * (tolPI + 2 * tieSlack B) + rLP) / (1 - m.γ)) := by
+  intro Vvi Vpi
+  -- VI residual
+  obtain ⟨hstop, hresVI, _⟩ := vi_stop_bound m rep hrep hA hγ0 hγ1 hT hVI hhVI tolVI htVI0 htVI
+  have hvar : (valueIteration m rep hVI tolVI none).variation ≤ tolVI := by
+    rcases hstop with h | h
+    · exact h
+    · omega
+  have rVI : ∀ s, s < m.S → |bellman m Vvi s - Vvi s| ≤ m.γ * tolVI := fun s hs =>
+    le_trans (hresVI s hs) (mul_le_mul_of_nonneg_left hvar hγ0)
+  -- PI residual
+  obtain ⟨prev, _, ε, _, hε, hchain⟩ := policyIteration_chain m rep hrep hA hγ0 hT hPI hhPI tolPI (Or.inr htPI0) hA2 fuel st hres hvalid
+  have hεtol : ε ≤ tolPI := by
+    obtain ⟨_, h2⟩ := hε htPI
+    rcases h2 with h | h
+    · exact h
+    · have := hPIconv prev; omega
+  have rPI : ∀ s, s < m.S → |bellman m Vpi s - Vpi s| ≤ m.γ * (tolPI + 2 * tieSlack B) := by
+    intro s hs
+    have hτ : ∀ s a, s < m.S → a < m.A → (greedyPolicy m.S m.A st.qfun).get s a ≠ 0 →
+        piValues m st.qfun s - 2 * tieSlack B ≤ st.qfun.get s a := by
+      intro u a hu ha hne
+      unfold greedyPolicy at hne
+      rw [mkMat_get _ hu ha] at hne
+      exact greedyRow_near_max m.A hA (st.qfun.get u) B (fun i hi => hB u i hu hi) a hne
+    have := hchain (2 * tieSlack B) hτ s hs
+    exact le_trans this (mul_le_mul_of_nonneg_left (by linarith) hγ0)
+  exact ⟨approx_fixed_points_close m hγ0 hγ1 hT Vvi Vpi _ _ rVI rPI,
+         approx_fixed_points_close m hγ0 hγ1 hT Vvi Vlp _ _ rVI hLP,
+         approx_fixed_points_close m hγ0 hγ1 hT Vpi Vlp _ _ rPI hLP⟩
+
+/-- **policyIteration_exact_optimal.**  Terminated run, last sweep with variation exactly 0 (the evaluation reached the exact
+    value of the policy) and every positively weighted action an exact row maximiser (no near-ties): `max_a Q` solves the
+    Bellman optimality equation — it is V*. -/
+theorem policyIteration_exact_optimal (m : MDP) (rep : Rep) (hrep : RepOK m rep) (hA : 0 < m.A) (hγ0 : 0 ≤ m.γ) (hT : ValidT m)
+    (h : Nat) (hh : 0 < h) (tol : Rat) (htol0 : 0 < tol) (htol : useTolerance tol = true)
+    (hA2 : (m.A : Rat) * m.A * AITB.Gen.equalToleranceSmall < 1)
+    (fuel : Nat) (st : PIState) (hres : policyIteration m rep h tol fuel = some st)
+    (hvalid : ValidPi m (greedyPolicy m.S m.A st.qfun).get)
+    (hexact : ∀ prev : PIState, (policyEvaluation m rep h tol prev.vParam (greedyPolicy m.S m.A prev.qfun)).variation = 0)
+    (hties : ∀ s a, s < m.S → a < m.A → (greedyPolicy m.S m.A st.qfun).get s a ≠ 0 → st.qfun.get s a = piValues m st.qfun s) :
+    IsFixedPoint m (piValues m st.qfun) := by
+  obtain ⟨prev, _, ε, _, hε, hchain⟩ := policyIteration_chain m rep hrep hA hγ0 hT h hh tol (Or.inr htol0) hA2 fuel st hres hvalid
+  have hε0 : ε = 0 := by rw [(hε htol).1]; exact hexact prev
+  intro s hs
+  have := hchain 0 (fun u a hu ha hne => by rw [hties u a hu ha hne]; linarith) s hs
+  rw [hε0] at this
+  simp only [add_zero, mul_zero] at this
+  have h0 := abs_nonneg (bellman m (piValues m st.qfun) s - piValues m st.qfun s)
+  have : |bellman m (piValues m st.qfun) s - piValues m st.qfun s| = 0 := le_antisymm this h0
+  linarith [abs_eq_zero.mp this]
+
+/-! ### idealised policy iteration (exact evaluation): monotone improvement, no policy revisited before optimality -/
+
+/-- `V` is the exact value of the stochastic policy `p` -/
+def IsValueOf (m : MDP) (p : Nat → Nat → Rat) (V : Nat → Rat) : Prop := ∀ s, s < m.S → V s = bellmanPi m p V s
+/-- `p` puts weight only on maximisers of Q^V -/
+def GreedyFor (m : MDP) (p : Nat → Nat → Rat) (V : Nat → Rat) : Prop :=
+  ∀ s a, s < m.S → a < m.A → p s a ≠ 0 → qBackup m V s a = bellman m V s
+
+theorem bellmanPi_greedy (m : MDP) (p : Nat → Nat → Rat) (hp : ValidPi m p) (V : Nat → Rat) (hg : GreedyFor m p V) :
+    ∀ s, s < m.S → bellmanPi m p V s = bellman m V s := by
+  intro s hs
+  have hb := convex_bounds m.A (p s) (qBackup m V s) (bellman m V s) (bellman m V s) (hp.nonneg s) (hp.sum_one s hs)
+    (fun a ha h0 => by rw [hg s a hs ha h0]; exact ⟨le_refl _, le_refl _⟩)
+  unfold bellmanPi; linarith [hb.1, hb.2]
+
+theorem convex_upper (n : Nat) (w x : Nat → Rat) (hi : Rat) (hw : ∀ a, 0 ≤ w a) (hsum : sumTo n w = 1)
+    (hb : ∀ a, a < n → w a ≠ 0 → x a ≤ hi) : sumTo n (fun a => x a * w a) ≤ hi := by
+  have h2 : sumTo n (fun a => x a * w a) ≤ sumTo n (fun a => hi * w a) := by
+    apply sumTo_le
+    intro a ha
+    by_cases h0 : w a = 0
+    · simp [h0]
+    · exact mul_le_mul_of_nonneg_right (hb a ha h0) (hw a)
+  rw [sumTo_mul_left, hsum] at h2
+  linarith
+
+theorem bellmanPi_le_bellman (m : MDP) (hA : 0 < m.A) (p : Nat → Nat → Rat) (hp : ValidPi m p) (V : Nat → Rat) :
+    ∀ s, s < m.S → bellmanPi m p V s ≤ bellman m V s := by
+  intro s hs
+  unfold bellmanPi
+  exact convex_upper m.A (p s) (qBackup m V s) (bellman m V s) (hp.nonneg s) (hp.sum_one s hs)
+    (fun a ha _ => qBackup_le_bellman m hA V s a ha)
+
+/-- **policy improvement.**  π' greedy for Q^{V} where V is the exact value of π; V' the exact value of π'.  Then V ≤ V'. -/
+theorem exact_pi_improves (m : MDP) (hA : 0 < m.A) (hγ0 : 0 ≤ m.γ) (hγ1 : m.γ < 1) (hT : ValidT m)
+    (p p' : Nat → Nat → Rat) (hp : ValidPi m p) (hp' : ValidPi m p') (V V' : Nat → Rat)
+    (hV : IsValueOf m p V) (hV' : IsValueOf m p' V') (hg : GreedyFor m p' V) :
+    ∀ s, s < m.S → V s ≤ V' s := by
+  intro s hs
+  -- largest deficit D = max_s (V s − V' s), attained at t
+  obtain ⟨t, ht, hD⟩ := maxTo_attained (m.S - 1) (fun u => V u - V' u)
+  have hle : ∀ u, u < m.S → V u - V' u ≤ maxTo (m.S - 1) (fun u => V u - V' u) :=
+    fun u hu => maxTo_ge (m.S - 1) (fun u => V u - V' u) u (by omega)
+  have ht' : t < m.S := by omega
+  -- V t = B_π V t ≤ B V t = B_π' V t
+  have h1 : V t ≤ bellmanPi m p' V t := by
+    rw [bellmanPi_greedy m p' hp' V hg t ht', hV t ht']
+    exact bellmanPi_le_bellman m hA p hp V t ht'
+  -- B_π' V t − B_π' V' t ≤ γ D
+  have h2 : bellmanPi m p' V t - bellmanPi m p' V' t ≤ m.γ * maxTo (m.S - 1) (fun u => V u - V' u) := by
+    have hb := convex_upper m.A (p' t) (fun a => qBackup m V t a - qBackup m V' t a)
+      (m.γ * maxTo (m.S - 1) (fun u => V u - V' u)) (hp'.nonneg t) (hp'.sum_one t ht')
+      (fun a ha _ => by
+        unfold qBackup
+        have e : m.R t a + sumTo m.S (fun s1 => m.T t a s1 * (V s1 * m.γ)) - (m.R t a + sumTo m.S (fun s1 => m.T t a s1 * (V' s1 * m.γ)))
+            = m.γ * sumTo m.S (fun s1 => m.T t a s1 * (V s1 - V' s1)) := by
+          rw [← sumTo_mul_left]
+          have : sumTo m.S (fun s1 => m.T t a s1 * (V s1 * m.γ))
+              = sumTo m.S (fun s1 => m.T t a s1 * (V' s1 * m.γ) + m.γ * (m.T t a s1 * (V s1 - V' s1))) := by
+            apply sumTo_congr; intro i _; ring
+          rw [this, sumTo_add]; ring
+        rw [e]
+        exact mul_le_mul_of_nonneg_left (weighted_le m hT (fun u => V u - V' u) _ hle t a) hγ0)
+    have e : sumTo m.A (fun a => (qBackup m V t a - qBackup m V' t a) * p' t a) = bellmanPi m p' V t - bellmanPi m p' V' t := by
+      unfold bellmanPi
+      have : sumTo m.A (fun a => qBackup m V t a * p' t a)
+          = sumTo m.A (fun a => qBackup m V' t a * p' t a + (qBackup m V t a - qBackup m V' t a) * p' t a) := by
+        apply sumTo_congr; intro i _; ring
+      rw [this, sumTo_add]; ring
+    rw [e] at hb
+    exact hb
+  have h3 : V' t = bellmanPi m p' V' t := hV' t ht'
+  have hDle : maxTo (m.S - 1) (fun u => V u - V' u) ≤ 0 := by
+    have : maxTo (m.S - 1) (fun u => V u - V' u) = V t - V' t := hD
+    nlinarith
+  have := hle s hs
+  linarith
+
+/-- **no progress ⇒ optimal.**  If the improved policy's exact value equals the old one, the old value solves the optimality equation. -/
+theorem exact_pi_stall_optimal (m : MDP) (p' : Nat → Nat → Rat) (hp' : ValidPi m p') (V V' : Nat → Rat)
+    (hV' : IsValueOf m p' V') (hg : GreedyFor m p' V) (heq : ∀ s, s < m.S → V' s = V s) : IsFixedPoint m V := by
+  intro s hs
+  rw [← bellmanPi_greedy m p' hp' V hg s hs, ← heq s hs, hV' s hs]
+  exact (bellmanPi_congr m p' heq s).symm
+
+/-- the exact value of a policy is unique (γ < 1) -/
+theorem value_unique (m : MDP) (hγ0 : 0 ≤ m.γ) (hγ1 : m.γ < 1) (hT : ValidT m) (p : Nat → Nat → Rat) (hp : ValidPi m p)
+    (V W : Nat → Rat) (hV : IsValueOf m p V) (hW : IsValueOf m p W) : ∀ s, s < m.S → V s = W s := by
+  intro s hs
+  have hS : 0 < m.S := by omega
+  obtain ⟨t, ht, hD⟩ := maxAbsDiff_attained m.S hS V W
+  have hle : ∀ u, u < m.S → |V u - W u| ≤ maxAbsDiff m.S V W := fun u hu => maxAbsDiff_ge m.S V W u hu
+  have hc := bellmanPi_contraction m p hp V W (maxAbsDiff m.S V W) hγ0 hT hle t ht
+  rw [← hV t ht, ← hW t ht, ← hD] at hc
+  have h0 : 0 ≤ maxAbsDiff m.S V W := by rw [hD]; exact abs_nonneg _
+  have hz : maxAbsDiff m.S V W ≤ 0 := by nlinarith
+  have := hle s hs
+  have h1 : |V s - W s| ≤ 0 := by linarith
+  have := abs_eq_zero.mp (le_antisymm h1 (abs_nonneg _))
+  linarith
+
+/-- **termination of idealised policy iteration.**  A run of exact policy iteration is a sequence of policies πₖ with exact
+    values Vₖ, each π_{k+1} greedy for Q^{Vₖ}.  If the same policy shows up at rounds k < j, then V_k already solves the
+    optimality equation (so the loop had reached its stopping point at round k): before optimality no policy is ever revisited,
+    hence at most (number of tie-set policies) ≤ (2^A − 1)^S rounds are needed. -/
+theorem exact_pi_no_revisit (m : MDP) (hA : 0 < m.A) (hγ0 : 0 ≤ m.γ) (hγ1 : m.γ < 1) (hT : ValidT m)
+    (π : Nat → Nat → Nat → Rat) (V : Nat → Nat → Rat)
+    (hπ : ∀ k, ValidPi m (π k)) (hV : ∀ k, IsValueOf m (π k) (V k)) (hg : ∀ k, GreedyFor m (π (k+1)) (V k))
+    (k j : Nat) (hkj : k < j) (hsame : ∀ s a, s < m.S → a < m.A → π j s a = π k s a) : IsFixedPoint m (V k) := by
+  have hmono : ∀ i s, s < m.S → V i s ≤ V (i+1) s := fun i =>
+    exact_pi_improves m hA hγ0 hγ1 hT (π i) (π (i+1)) (hπ i) (hπ (i+1)) (V i) (V (i+1)) (hV i) (hV (i+1)) (hg i)
+  have hchain : ∀ d i s, s < m.S → V i s ≤ V (i+d) s := by
+    intro d
+    induction d with
+    | zero => intro i s _; exact le_refl _
+    | succ d ih => intro i s hs; exact le_trans (ih i s hs) (hmono (i+d) s hs)
+  -- same policy ⇒ same value
+  have hVj : IsValueOf m (π k) (V j) := by
+    intro s hs
+    rw [hV j s hs]
+    unfold bellmanPi
+    apply sumTo_congr
+    intro a ha
+    rw [hsame s a hs ha]
+  have heqjk : ∀ s, s < m.S → V j s = V k s := value_unique m hγ0 hγ1 hT (π k) (hπ k) (V j) (V k) hVj (hV k)
+  -- squeeze: V k ≤ V (k+1) ≤ V j = V k
+  have hsq : ∀ s, s < m.S → V (k+1) s = V k s := by
+    intro s hs
+    have h1 := hmono k s hs
+    have h2 : V (k+1) s ≤ V j s := by
+      have := hchain (j - (k+1)) (k+1) s hs
+      have e : k + 1 + (j - (k+1)) = j := by omega
+      rwa [e] at this
+    rw [heqjk s hs] at h2
+    linarith
+  exact exact_pi_stall_optimal m (π (k+1)) (hπ (k+1)) (V k) (V (k+1)) (hV (k+1)) (hg k) hsq
+
+
+theorem checkValidPi_sound (m : MDP) (p : Nat → Nat → Rat) (h : checkValidPi m p = true) :
+    (∀ s a, s < m.S → a < m.A → 0 ≤ p s a) ∧ ∀ s, s < m.S → sumTo m.A (fun a => p s a) = 1 := by
+  constructor
+  · intro s a hs ha
+    have h1 := (allLt_iff _ _).mp h s hs
+    simp only [Bool.and_eq_true, decide_eq_true_eq] at h1
+    have := (allLt_iff _ _).mp h1.1 a ha
+    simpa using this
+  · intro s hs
+    have h1 := (allLt_iff _ _).mp h s hs
+    simp only [Bool.and_eq_true, decide_eq_true_eq] at h1
+    exact h1.2
+
+/-- greedy rows are nonnegative everywhere, so the Boolean check on the S×A block gives `ValidPi` for a greedy matrix -/
+theorem checkValidPi_greedy (m : MDP) (hA : 0 < m.A) (q : Mat) (h : checkValidPi m (greedyPolicy m.S m.A q).get = true) :
+    ValidPi m (greedyPolicy m.S m.A q).get := by
+  obtain ⟨_, h2⟩ := checkValidPi_sound m _ h
+  refine ⟨?_, h2⟩
+  intro s a
+  by_cases hs : s < m.S
+  · by_cases ha : a < m.A
+    · unfold greedyPolicy
+      rw [mkMat_get _ hs ha]
+      obtain ⟨c, hc1, _, hx⟩ := greedyRow_form m.A hA (q.get s)
+      rcases hx a with h0 | h1
+      · rw [h0]
+      · rw [h1]; have : (0 : Rat) < c := by exact_mod_cast hc1
+        exact le_of_lt (one_div_pos.mpr this)
+    · simp [greedyPolicy, mkMat, Mat.get, Array.getD, hs, ha]
+  · simp [greedyPolicy, mkMat, Mat.get, Array.getD, hs]
+
+/-! ## the tolerance run stops by tolerance when the horizon is long enough -/
+
+theorem viLoop_succ_right (m : MDP) (rep : Rep) (ir : Mat) (useTol : Bool) (tol : Rat) :
+    ∀ (fuel : Nat) (st : VIState), viLoop m rep ir useTol tol (fuel+1) st = viLoop m rep ir useTol tol 1 (viLoop m rep ir useTol tol fuel st) := by
+  intro fuel
+  induction fuel with
+  | zero => intro st; rfl
+  | succ fuel ih =>
+    intro st
+    by_cases hstop : (useTol && !(decide (st.variation > tol))) = true
+    · have e : ∀ n, viLoop m rep ir useTol tol (n+1) st = st := by
+        intro n; conv => lhs; unfold viLoop
+        simp only [hstop, if_true]
+      rw [e (fuel+1), e fuel, e 0]
+    · have e : ∀ n, viLoop m rep ir useTol tol (n+1) st = viLoop m rep ir useTol tol n (viStep m rep ir useTol st) := by
+        intro n; conv => lhs; unfold viLoop
+        simp only [hstop, Bool.false_eq_true, if_false]
+      rw [e (fuel+1), e fuel, ih]
+
+theorem maxAbsDiff_congr (n : Nat) (a b c : Nat → Rat) (h : ∀ s, s < n → b s = c s) (hn : 0 < n) :
+    maxAbsDiff n a b = maxAbsDiff n a c := by
+  unfold maxAbsDiff
+  apply maxTo_congr
+  intro i hi
+  rw [h i (by omega)]
+
+theorem maxAbsDiff_congr2 (n : Nat) (a b c d : Nat → Rat) (h1 : ∀ s, s < n → a s = c s) (h2 : ∀ s, s < n → b s = d s) (hn : 0 < n) :
+    maxAbsDiff n a b = maxAbsDiff n c d := by
+  unfold maxAbsDiff
+  apply maxTo_congr
+  intro i hi
+  rw [h1 i (by omega), h2 i (by omega)]
+
+/-- exact bookkeeping of the tolerance loop from the default start: the state after t passes holds `optH t`, and for t ≥ 1 the
+    variation is ‖optH t − optH (t−1)‖∞ -/
+def VIExact (m : MDP) (st : VIState) : Prop :=
+  (∀ s, s < m.S → st.vf.values.get s = optH m st.timestep s) ∧
+  (0 < st.timestep → st.variation = maxAbsDiff m.S (optH m st.timestep) (optH m (st.timestep - 1)))
+
+theorem viLoop_exact (m : MDP) (rep : Rep) (hrep : RepOK m rep) (hA : 0 < m.A) (hS : 0 < m.S) (tol : Rat) :
+    ∀ (fuel : Nat) (st : VIState), VIShape m st → VIExact m st → VIExact m (viLoop m rep (immRewards m rep) true tol fuel st) := by
+  intro fuel
+  induction fuel with
+  | zero => intro st _ h; exact h
+  | succ fuel ih =>
+    intro st hsh hex
+    by_cases hstop : (true && !(decide (st.variation > tol))) = true
+    · have e : viLoop m rep (immRewards m rep) true tol (fuel+1) st = st := by
+        conv => lhs; unfold viLoop
+        simp only [hstop, if_true]
+      rw [e]; exact hex
+    · have e : viLoop m rep (immRewards m rep) true tol (fuel+1) st
+          = viLoop m rep (immRewards m rep) true tol fuel (viStep m rep (immRewards m rep) true st) := by
+        conv => lhs; unfold viLoop
+        simp only [hstop, Bool.false_eq_true, if_false]
+      rw [e]
+      obtain ⟨hsh', hval, _, _, hts, hvar⟩ := viStep_spec m rep hrep hA true st hsh
+      apply ih _ hsh'
+      have hv' : ∀ s, s < m.S → (viStep m rep (immRewards m rep) true st).vf.values.get s = optH m (st.timestep + 1) s := by
+        intro s hs
+        rw [hval s hs]
+        show _ = bellman m (optH m st.timestep) s
+        exact bellman_congr m hex.1 s
+      constructor
+      · intro s hs; rw [hts]; exact hv' s hs
+      · intro _
+        rw [hvar, hts]
+        simp only [if_true, Nat.add_sub_cancel]
+        exact maxAbsDiff_congr2 m.S _ _ _ _ hv' hex.1 hS
+
+/-- **vi_stops_by_tolerance.**  If γ^(h−2)·‖optH 1‖∞ ≤ tol (h ≥ 2) the tolerance run cannot use all h passes: it stops because the
+    variation fell to the tolerance.  This discharges the `timestep < h` hypothesis of `planners_agree` from (γ, tol, h, Rmax). -/
+theorem vi_stops_by_tolerance (m : MDP) (rep : Rep) (hrep : RepOK m rep) (hA : 0 < m.A) (hS : 0 < m.S) (hγ0 : 0 ≤ m.γ) (hT : ValidT m)
+    (h : Nat) (hh : 2 ≤ h) (tol : Rat) (htol : useTolerance tol = true) (d : Rat)
+    (hd : ∀ s, s < m.S → |optH m 1 s| ≤ d) (hsmall : m.γ ^ (h - 2) * d ≤ tol) :
+    (valueIteration m rep h tol none).timestep < h := by
+  have hsh := makeVF_shape m (makeQ m.S m.A) (tol * 2) 0
+  have hle := (viLoop_values m rep hrep hA true tol h _ hsh).2.1
+  by_contra hcon
+  have hfull : (viLoop m rep (immRewards m rep) true tol h ⟨makeVF m.S, makeQ m.S m.A, tol * 2, 0⟩).timestep = h := by
+    have : (valueIteration m rep h tol none).timestep
+        = (viLoop m rep (immRewards m rep) true tol h ⟨makeVF m.S, makeQ m.S m.A, tol * 2, 0⟩).timestep := by
+      simp only [valueIteration, htol]
+    rw [this] at hcon
+    simp only [Nat.zero_add] at hle
+    omega
+  obtain ⟨k, rfl⟩ : ∃ k, h = k + 1 := ⟨h - 1, by omega⟩
+  rw [viLoop_succ_right] at hfull
+  have hex0 : VIExact m ⟨makeVF m.S, makeQ m.S m.A, tol * 2, 0⟩ :=
+    ⟨fun s _ => by simp [optH, optFrom, makeVF_get], fun h0 => absurd h0 (lt_irrefl 0)⟩
+  have hex := viLoop_exact m rep hrep hA hS tol k _ hsh hex0
+  have hrle := (viLoop_values m rep hrep hA true tol k _ hsh).2.1
+  simp only [Nat.zero_add] at hrle
+  -- the last guarded pass must have run
+  by_cases hstop : (true && !(decide ((viLoop m rep (immRewards m rep) true tol k ⟨makeVF m.S, makeQ m.S m.A, tol * 2, 0⟩).variation > tol))) = true
+  · have e : viLoop m rep (immRewards m rep) true tol 1 (viLoop m rep (immRewards m rep) true tol k ⟨makeVF m.S, makeQ m.S m.A, tol * 2, 0⟩)
+        = viLoop m rep (immRewards m rep) true tol k ⟨makeVF m.S, makeQ m.S m.A, tol * 2, 0⟩ := by
+      conv => lhs; unfold viLoop
+      simp only [hstop, if_true]
+    rw [e] at hfull; omega
+  · have e : (viLoop m rep (immRewards m rep) true tol 1 (viLoop m rep (immRewards m rep) true tol k ⟨makeVF m.S, makeQ m.S m.A, tol * 2, 0⟩)).timestep
+        = (viLoop m rep (immRewards m rep) true tol k ⟨makeVF m.S, makeQ m.S m.A, tol * 2, 0⟩).timestep + 1 := by
+      conv => lhs; unfold viLoop
+      simp only [hstop, Bool.false_eq_true, if_false, viLoop, viStep]
+    rw [e] at hfull
+    have hrt : (viLoop m rep (immRewards m rep) true tol k ⟨makeVF m.S, makeQ m.S m.A, tol * 2, 0⟩).timestep = k := by omega
+    have hgt : tol < (viLoop m rep (immRewards m rep) true tol k ⟨makeVF m.S, makeQ m.S m.A, tol * 2, 0⟩).variation := by
+      simp only [Bool.true_and, Bool.not_eq_true', decide_eq_false_iff_not, not_not] at hstop
+      exact hstop
+    have hk1 : 0 < k := by omega
+    have hvar := hex.2 (by rw [hrt]; exact hk1)
+    rw [hrt] at hvar
+    obtain ⟨s, hs, hatt⟩ := maxAbsDiff_attained m.S hS (optH m k) (optH m (k - 1))
+    have hgeo := optFrom_variation_geometric m hγ0 hT (fun _ => 0) d
+      (fun s hs => by simpa [optFrom, optH] using hd s hs) (k - 1) s hs
+    have e2 : k - 1 + 1 = k := by omega
+    rw [e2] at hgeo
+    have e3 : k + 1 - 2 = k - 1 := by omega
+    rw [e3] at hsmall
+    have : (viLoop m rep (immRewards m rep) true tol k ⟨makeVF m.S, makeQ m.S m.A, tol * 2, 0⟩).variation ≤ tol := by
+      rw [hvar, hatt]; exact le_trans hgeo hsmall
+    linarith
+
+
 /-! ## translator obligation: the statement order / operators the model hard-codes are the ones found in the source now -/
 
 /-- `tools/extract_c01.py` locates (in order) the statements of the VI and PE loops, the LP rows and the argmax loop in the
@@ -1228,7 +2048,9 @@ theorem sites_match_model :
     AITB.Gen.C01.peLoopOrder = ["init2tol", "useTolSmall", "while", "save", "discount", "computeQ", "dot", "absmax"] ∧
     AITB.Gen.C01.lpSites = ["objUniform", "minimise", "rowEigen", "rowGeneric", "plusOne", "GE", "assembleQ"] ∧
     AITB.Gen.C01.bellmanInplaceIsMaxCoeffOverActions = true ∧
-    AITB.Gen.C01.computeQSites = ["irGeneric", "qEigen", "qGeneric"] := by decide
+    AITB.Gen.C01.computeQSites = ["irGeneric", "qEigen", "qGeneric"] ∧
+    AITB.Gen.C01.greedySites = ["init", "scanFrom1", "tieGeneral", "greater", "setMax", "reset", "fillFrom0", "tieGeneral2", "recip", "zero"] ∧
+    AITB.Gen.C01.piSites = ["eval", "greedyOfQfun", "matrix0", "label", "evalP", "warm", "qfunGetsQ", "newMatrix", "diffSmall", "moveMatrix", "goto", "ret"] := by decide
 
 /-! ## the hypotheses are satisfiable: a concrete non-trivial MDP (2 states, 2 actions, negative reward, self-loop) -/
 
